@@ -184,52 +184,69 @@ def parse_assumptions(out):
     return blocks
 
 
+def props_files(pid):
+    """Props/<pid>.v and its continuation files Props/<pid>_*.v (same rules: only `exact` proofs + Print Assumptions)"""
+    import glob
+    main = os.path.join(COQ, "Props", pid + ".v")
+    return [main] + sorted(glob.glob(os.path.join(COQ, "Props", pid + "_*.v")))
+
+
 def compile_props(pid, interval_ok=False, timeout=1800):
-    """compile Props/<pid>.v (after its cone) and check the axioms every theorem depends on.
+    """compile Props/<pid>.v and Props/<pid>_*.v (after their cone) and check the axioms every theorem depends on.
     returns dict(ok, n_theorems, n_discharged, axioms(set), problems[list], log)"""
     res = {"ok": False, "n_theorems": 0, "n_discharged": 0, "axioms": [], "problems": []}
-    src_path = os.path.join(COQ, "Props", pid + ".v")
-    if not os.path.exists(src_path):
+    files = props_files(pid)
+    if not os.path.exists(files[0]):
         res["problems"].append("Props/%s.v missing" % pid)
         return res
-    with open(src_path) as fh:
-        src = strip_coq_comments(fh.read())
-    theorems = re.findall(r"^\s*(?:Theorem|Lemma|Corollary)\s+([A-Za-z_][\w']*)", src, re.M)
-    printed = re.findall(r"^\s*Print\s+Assumptions\s+([A-Za-z_][\w']*)", src, re.M)
-    res["n_theorems"] = len(theorems)
-    missing = [t for t in theorems if t not in printed]
-    if missing:
-        res["problems"].append("no Print Assumptions for: " + ", ".join(missing))
-    ok, out = coq_make(["Props/%s.vo" % pid], timeout=timeout)
-    log("make_%s.log" % pid, out)
-    if not ok:
-        res["problems"].append("make Props/%s.vo failed" % pid)
-        res["log"] = out[-3000:]
-        # how many theorems of the Props file itself were accepted is unknown: count 0
-        return res
-    rc, out2 = run(["coqc", "-Q", COQ, "SU", "-w", "-all", src_path], cwd=COQ, timeout=timeout)
-    log("props_%s.log" % pid, out2)
-    if rc != 0:
-        res["problems"].append("coqc Props/%s.v failed" % pid)
-        res["log"] = out2[-3000:]
-        return res
-    blocks = parse_assumptions(out2)
     axioms = set()
     bad = set()
-    for b in blocks:
-        for a in b:
-            axioms.add(a)
-            if a in ALLOWED_AXIOMS:
-                continue
-            if interval_ok and a.startswith(ALLOWED_PREFIXES_INTERVAL):
-                continue
-            bad.add(a)
+    all_theorems = []
+    tmpdir = os.path.join(BUILD, "props_tmp")
+    os.makedirs(tmpdir, exist_ok=True)
+    for src_path in files:
+        name = os.path.basename(src_path)[:-2]
+        with open(src_path) as fh:
+            src = strip_coq_comments(fh.read())
+        theorems = re.findall(r"^\s*(?:Theorem|Lemma|Corollary)\s+([A-Za-z_][\w']*)", src, re.M)
+        printed = re.findall(r"^\s*Print\s+Assumptions\s+([A-Za-z_][\w']*)", src, re.M)
+        all_theorems += theorems
+        missing = [t for t in theorems if t not in printed]
+        if missing:
+            res["problems"].append("no Print Assumptions for: " + ", ".join(missing))
+        ok, out = coq_make(["Props/%s.vo" % name], timeout=timeout)
+        log("make_%s.log" % name, out)
+        if not ok:
+            res["problems"].append("make Props/%s.vo failed" % name)
+            res["log"] = out[-3000:]
+            res["n_theorems"] = len(all_theorems)
+            # how many theorems of the Props file itself were accepted is unknown: count 0
+            return res
+        # once more, to capture the Print Assumptions output (the .vo of this run is thrown away)
+        rc, out2 = run(["coqc", "-Q", COQ, "SU", "-w", "-all", "-o", os.path.join(tmpdir, name + ".vo"), src_path],
+                       cwd=COQ, timeout=timeout)
+        log("props_%s.log" % name, out2)
+        if rc != 0:
+            res["problems"].append("coqc Props/%s.v failed" % name)
+            res["log"] = out2[-3000:]
+            res["n_theorems"] = len(all_theorems)
+            return res
+        blocks = parse_assumptions(out2)
+        for b in blocks:
+            for a in b:
+                axioms.add(a)
+                if a in ALLOWED_AXIOMS:
+                    continue
+                if interval_ok and a.startswith(ALLOWED_PREFIXES_INTERVAL):
+                    continue
+                bad.add(a)
+        if len(blocks) < len(printed):
+            res["problems"].append("%s: only %d of %d Print Assumptions outputs seen" % (name, len(blocks), len(printed)))
+    res["n_theorems"] = len(all_theorems)
     res["axioms"] = sorted(axioms)
-    if len(blocks) < len(printed):
-        res["problems"].append("only %d of %d Print Assumptions outputs seen" % (len(blocks), len(printed)))
     if bad:
         res["problems"].append("axioms outside the allow-list: " + ", ".join(sorted(bad)))
-    res["n_discharged"] = len(theorems) if not res["problems"] else 0
+    res["n_discharged"] = len(all_theorems) if not res["problems"] else 0
     res["ok"] = not res["problems"]
     return res
 
@@ -291,6 +308,81 @@ def run_side(side, profile, script_text, timeout=900):
         cmd = [os.path.join(OCAML_DIR, "driver"), profile]
     rc, out = run(cmd, inp=script_text, timeout=timeout)
     return rc, out.split("\n")
+
+
+class ModelTimeout(Exception):
+    """the extracted model did not finish in time: a failure of the tooling, never a verdict about the code"""
+
+
+def script_cost(s):
+    """rough relative cost of running script s through the extracted model (Flocq arithmetic on
+    inductive integers): the ribbon model sums its whole window on every poll"""
+    t = s.ops[0].split()
+    k = 1
+    if t[0] == "ribbon.new":
+        try:
+            k = 1 + int(t[1]) // 4
+        except ValueError:
+            pass
+    elif t[0] == "glide.new":
+        k = 4
+    n = 0
+    for op in s.ops:
+        if op.startswith("tickhash"):
+            n += int(op.split()[1])
+        else:
+            n += 1
+    return k * n + 50
+
+
+def run_sharded(side, profile, scripts, timeout=900, jobs=None):
+    """run the scripts through one side, split over up to `jobs` processes (longest-processing-time
+    first), and return dict sid -> list of output lines.  A timeout of the implementation shows as a
+    missing / TIMEOUT line (a hang is a finding); a timeout of the model raises ModelTimeout."""
+    jobs = jobs or int(os.environ.get("VERIF_JOBS", "16"))
+    if side == "impl":
+        cmd = [harness_bin(profile)]
+    else:
+        cmd = [os.path.join(OCAML_DIR, "driver"), profile]
+    order = sorted(scripts, key=script_cost, reverse=True)
+    nb = max(1, min(jobs, len(order)))
+    bins = [[0, []] for _ in range(nb)]
+    for sc in order:
+        b = min(bins, key=lambda x: x[0])
+        b[0] += script_cost(sc)
+        b[1].append(sc)
+    e = dict(os.environ)
+    procs = []
+    for cost, group in bins:
+        if not group:
+            continue
+        text = "".join(sc.text() for sc in group)
+        pr = subprocess.Popen(cmd, stdin=subprocess.PIPE, stdout=subprocess.PIPE, stderr=subprocess.DEVNULL, env=e, text=True)
+        procs.append((pr, text))
+    import threading
+    results = [None] * len(procs)
+
+    def feed(k):
+        pr, text = procs[k]
+        try:
+            out, _ = pr.communicate(text, timeout=timeout)
+            results[k] = (pr.returncode, out)
+        except subprocess.TimeoutExpired:
+            pr.kill()
+            out, _ = pr.communicate()
+            results[k] = (124, (out or "") + "\nTIMEOUT")
+
+    ths = [threading.Thread(target=feed, args=(k,)) for k in range(len(procs))]
+    for t in ths:
+        t.start()
+    for t in ths:
+        t.join()
+    res = {}
+    for rc, out in results:
+        if rc == 124 and side == "model":
+            raise ModelTimeout("the extracted model did not finish within %d s" % timeout)
+        res.update(split_outputs(out.split("\n")))
+    return res
 
 
 def split_outputs(lines):
